@@ -285,6 +285,18 @@ func TestVerif_C02_Injection(t *testing.T) {
 				s.ag.tick()
 			}
 		}
+		// application data from the signalled endpoints may have been flowing before the injected message
+		// (this fills the agent's per-candidate cache of validated source addresses)
+		if phase != "fresh" && rapid.Bool().Draw(rt, "dataBefore") {
+			for _, sk := range s.ag.socks {
+				for _, e := range []int{0, 1} {
+					if sk.priv.Addr().Is4() == s.eps[e].priv.Addr().Is4() {
+						s.inject(s.eps[e], sk, []byte{0x80, 0x60, 1, 2, 3, 4, 5, 6, 7, 8, 9, 10})
+						s.inject(s.eps[e], sk, []byte{0x80, 0x60, 1, 3, 3, 4, 5, 6, 7, 8, 9, 10})
+					}
+				}
+			}
+		}
 		s.purgeNonRequests()
 		// outstanding transactions as seen by the harness
 		var outstanding []c02Outstanding
@@ -719,6 +731,14 @@ func FuzzVerifC02Inbound(f *testing.F) {
 			_ = s.ag.a.SetRemoteCredentials(s.peer.ufrag, s.peer.pwd)
 			signal()
 			s.ag.tick()
+		}
+		if data[0]&8 != 0 {
+			for _, sk := range s.ag.socks {
+				for _, e := range []int{0, 1} {
+					s.inject(s.eps[e], sk, []byte{0x80, 0x60, 1, 2, 3, 4, 5, 6, 7, 8, 9, 10})
+					s.inject(s.eps[e], sk, []byte{0x80, 0x60, 1, 3, 3, 4, 5, 6, 7, 8, 9, 10})
+				}
+			}
 		}
 		s.purgeNonRequests()
 		var outstanding []c02Outstanding
